@@ -3,6 +3,8 @@
 From Coq Require Import ZArith List Bool PrimFloat.
 Import ListNotations.
 Require Import PyBase Solver SolverF SolveAll SolveAllF SolveAllFacts SolveAllExamples.
+Require Import SolveAllSpan SolveAllSpanFacts SolveAllSpanExamples.
+Require Fsic.Gen.Generated.
 Open Scope Z_scope.
 
 Section C05.
@@ -137,6 +139,95 @@ Proof. exact (locate_unique_ok span). Qed.
 Theorem C05_locate_unknown_label span x : ~ In x span -> locate_index span x = LFail /\ locate_unique span x = LFail.
 Proof. exact (locate_unknown_label span x). Qed.
 
+(* ---- label resolution for every supported span type (the dispatch of VectorContainer._locate_period_in_span over the
+   regenerated method list _VALID_INDEX_METHODS: pandas Index -> get_loc, list / tuple / range -> .index, NumPy array -> the
+   static fallback; labels are integer ids, equal ids <-> labels that compare equal) ---- *)
+Theorem C05_locate_dispatch k span x :
+  locate_dispatch Generated.valid_index_methods k span x =
+  Some (match k with
+        | SpIndex => locate_getloc span x
+        | SpList => locate_index span x
+        | SpArray => locate_unique span x
+        end).
+Proof. exact (locate_span_eq k span x). Qed.
+
+(* no repeated label: every label resolves to its own position, as a built-in int; an unknown label makes the lookup raise *)
+Theorem C05_locate_span_ok k span : NoDup span -> locate_ok Z (locate_span k span) span.
+Proof. exact (locate_span_ok k span). Qed.
+Theorem C05_locate_span_unknown k span x : ~ In x span -> locate_span k span x = LFail.
+Proof. exact (locate_span_unknown k span x). Qed.
+(* a label carried by several periods does not resolve to a single position: first occurrence on a list / tuple / range,
+   an exception on a NumPy array, a slice / mask (not an int) on a pandas Index *)
+Theorem C05_locate_span_repeated k span x : (2 <= count_of x span)%nat ->
+  match k with
+  | SpList => exists i, locate_span k span x = LInt (Z.of_nat i) /\ nth_error span i = Some x /\
+                        forall j, (j < i)%nat -> nth_error span j <> Some x
+  | SpArray => locate_span k span x = LFail
+  | SpIndex => locate_span k span x = LOther
+  end.
+Proof. exact (locate_span_repeated k span x). Qed.
+
+Section C05span.
+  Variable num : Type.
+  Variables (sub : num -> num -> num) (absf : num -> num) (ltb : num -> num -> bool)
+            (isfin : num -> bool) (zero : num).
+  Variables (ev before after : hook num).
+  Notation solve_t_M := (solve_t_M num sub absf ltb isfin zero ev before after).
+  Notation run_periods := (run_periods num sub absf ltb isfin zero ev before after Z).
+  Notation solve_M k span := (solve_M num sub absf ltb isfin zero ev before after Z (locate_span k span)).
+  Notation solve_period_M k span := (solve_period_M num sub absf ltb isfin zero ev before after Z (locate_span k span)).
+
+  (* solve_period(label) is identical to solve_t(position of label) for EVERY supported span type *)
+  Theorem C05_solve_period_every_span k span d o lab i s :
+    NoDup span -> nth_error span i = Some lab ->
+    solve_period_M k span d o lab s = solve_t_M d o (Z.of_nat i) s.
+  Proof. exact (solve_period_every_span num sub absf ltb isfin zero ev before after k span d o lab i s). Qed.
+  Theorem C05_solve_period_unknown_every_span k span d o lab s :
+    ~ In lab span -> solve_period_M k span d o lab s = (s, Raise KeyError).
+  Proof. exact (solve_period_unknown_every_span num sub absf ltb isfin zero ev before after k span d o lab s). Qed.
+  Theorem C05_solve_period_repeated_label k span d o lab s :
+    (2 <= count_of lab span)%nat -> k <> SpList -> solve_period_M k span d o lab s = (s, Raise KeyError).
+  Proof. exact (solve_period_repeated_label num sub absf ltb isfin zero ev before after k span d o lab s). Qed.
+  Theorem C05_solve_period_repeated_label_list span d o lab s :
+    (2 <= count_of lab span)%nat ->
+    exists i, nth_error span i = Some lab /\ (forall j, (j < i)%nat -> nth_error span j <> Some lab) /\
+              solve_period_M SpList span d o lab s = solve_t_M d o (Z.of_nat i) s.
+  Proof. exact (solve_period_repeated_label_list num sub absf ltb isfin zero ev before after span d o lab s). Qed.
+
+  (* iter_periods(start, end): one (position, label) pair per position from `start` to `end` inclusive (defaults: position
+     lags and position len-1-leads), in span order, for every supported span type *)
+  Theorem C05_iter_periods_every_span k span d start end_ a b :
+    NoDup span -> resolves_start Z d span start a -> resolves_end Z d span end_ b ->
+    iter_periods_M Z (locate_span k span) d span start end_ = Ret ((S b - a)%nat, periods Z span a b).
+  Proof. exact (iter_periods_every_span k span d start end_ a b). Qed.
+
+  (* solve(start, end) = the fold of solve_t over those positions, for every supported span type *)
+  Theorem C05_solve_every_span k span d o start end_ s a b :
+    min_iter o <= max_iter o -> NoDup span ->
+    resolves_start Z d span start a -> resolves_end Z d span end_ b ->
+    solve_M k span d o span start end_ s =
+    match run_periods d o (periods Z span a b) s [] with
+    | (s', Ret vs) => (s', Ret (mkRes (S b - a) vs))
+    | (s', Raise e) => (s', Raise e)
+    end.
+  Proof. exact (solve_every_span num sub absf ltb isfin zero ev before after k span d o start end_ s a b). Qed.
+  Theorem C05_solve_unknown_start_every_span k span d o x end_ s :
+    min_iter o <= max_iter o -> ~ In x span -> solve_M k span d o span (Some x) end_ s = (s, Raise KeyError).
+  Proof. exact (solve_unknown_start_every_span num sub absf ltb isfin zero ev before after k span d o x end_ s). Qed.
+  Theorem C05_solve_unknown_end_every_span k span d o start y s :
+    min_iter o <= max_iter o -> ~ In y span -> solve_M k span d o span start (Some y) s = (s, Raise KeyError).
+  Proof. exact (solve_unknown_end_every_span num sub absf ltb isfin zero ev before after k span d o start y s). Qed.
+
+  (* an explicit start in front of the first period with enough lags: solve_t's feasibility guard rejects that first period
+     with IndexError (fix eb62990) and nothing at all has changed *)
+  Theorem C05_solve_start_before_lags_rejected k span d o start end_ s a b :
+    min_iter o <= max_iter o -> NoDup span -> length (status s) = length span ->
+    resolves_start Z d span start a -> resolves_end Z d span end_ b ->
+    (a <= b)%nat -> (a < lags d)%nat ->
+    solve_M k span d o span start end_ s = (s, Raise IndexError).
+  Proof. exact (solve_start_before_lags_rejected num sub absf ltb isfin zero ev before after k span d o start end_ s a b). Qed.
+End C05span.
+
 (* the frame premise holds for every scripted model whose script makes no absolute write *)
 Theorem C05_scripted_oracles_frame n sc : scripts_local sc = true ->
   hook_frame float n (s_ev n sc) /\ hook_frame float n (s_before n sc) /\ hook_frame float n (s_after n sc).
@@ -162,6 +253,22 @@ Print Assumptions C05_locate_index_ok.
 Print Assumptions C05_locate_unique_ok.
 Print Assumptions C05_locate_unknown_label.
 Print Assumptions C05_scripted_oracles_frame.
+Print Assumptions C05_locate_dispatch.
+Print Assumptions C05_locate_span_ok.
+Print Assumptions C05_locate_span_unknown.
+Print Assumptions C05_locate_span_repeated.
+Print Assumptions C05_solve_period_every_span.
+Print Assumptions C05_solve_period_unknown_every_span.
+Print Assumptions C05_solve_period_repeated_label.
+Print Assumptions C05_solve_period_repeated_label_list.
+Print Assumptions C05_iter_periods_every_span.
+Print Assumptions C05_solve_every_span.
+Print Assumptions C05_solve_unknown_start_every_span.
+Print Assumptions C05_solve_unknown_end_every_span.
+Print Assumptions C05_solve_start_before_lags_rejected.
+Print Assumptions exS_every_span_kind.
+Print Assumptions exS_repeated_label.
+Print Assumptions exS_start_before_lags.
 Print Assumptions exB_containment_hypotheses_satisfiable.
 Print Assumptions exB_fault_contained.
 Print Assumptions exA_label_errors.
